@@ -2,7 +2,9 @@
 (* Exhaustive check of Native.tla over every signature with at most one      *)
 (* parameter (every kind, variadic or not, every result mode), the invalid    *)
 (* shapes and keyword-like names, and every argument list of at most MaxArgs  *)
-(* menu values.                                                               *)
+(* menu values; for a part of the signatures also every CONVFMT setting       *)
+(* (calls with one argument) and every shadowed entry of the Funcs table      *)
+(* (calls without arguments).                                                 *)
 EXTENDS NativeMachine
 
 CONSTANTS MaxArgs
@@ -14,16 +16,36 @@ ParamLists == {<<>>} \cup {<<k>> : k \in Kinds}
 Sigs == UNION {UNION {{MkSig(ps, vr, rm) : rm \in ResModes(ps, vr)} : vr \in IF ps = <<>> THEN {FALSE} ELSE {FALSE, TRUE}} : ps \in ParamLists}
         \cup {InvalidSig(s) : s \in InvalidShapes}
 
+\* the shadowed name varies for calls without arguments, the CONVFMT setting for calls with one argument, both
+\* over the signatures whose result is none, an echo, or a constant of kind int or string
+Varied(sg) == sg.shape = "ok" /\ (sg.res # "const" \/ sg.rk \in {"int", "string"})
 Init ==
-  /\ phase = "start" /\ recv = <<>> /\ printed = Unspecified
-  /\ \/ sig \in Sigs /\ called = TRUE /\ args \in ArgLists(MaxArgs)
-     \/ sig \in {KeywordSig(n) : n \in KeywordNames} \cup {InvalidSig(s) : s \in InvalidShapes} \cup {MkSig(<<"int">>, FALSE, [res |-> "none", rk |-> "int", err |-> "none"])}
-        /\ called = FALSE /\ args = <<>>
+  /\ phase = "start" /\ recv = <<>> /\ printed = Unspecified /\ ran = <<>>
+  /\ \/ /\ sig \in Sigs /\ called = TRUE /\ args \in ArgLists(MaxArgs)
+        /\ \/ shadow = "none" /\ cf = DefaultCf
+           \/ Varied(sig) /\ Len(args) = 0 /\ shadow \in Shadows \ {"none"} /\ cf = DefaultCf
+           \/ Varied(sig) /\ Len(args) = 1 /\ shadow = "none" /\ cf \in ConvFmts \ {DefaultCf}
+     \/ /\ sig \in {KeywordSig(n) : n \in KeywordNames} \cup {InvalidSig(s) : s \in InvalidShapes} \cup {MkSig(<<"int">>, FALSE, [res |-> "none", rk |-> "int", err |-> "none"])}
+        /\ called = FALSE /\ args = <<>> /\ shadow \in Shadows /\ cf = DefaultCf
 Spec == Init /\ [][NNext]_nvars
 
 SigsWellFormed == WellFormedSig(sig)
 \* the machine and the function Outcome are the same thing
-MachineIsOutcome == phase \in Finals => MachineOutcome = Outcome(sig, args, called)
+MachineIsOutcome == phase \in Finals => MachineOutcome = OutcomeFull(sig, args, called, shadow, cf)
+\* the Go function reached by the call is the one named in the program, whatever AWK function shadows another entry
+\* of the table; a call of the shadowed name reaches the AWK function
+DispatchRight == phase \in {"called", "converted", "returned", "aborted"} =>
+                   (ran = Append(RanBefore(shadow), sig.name) /\ Len(ran) = (IF shadow = "none" THEN 4 ELSE 3))
+\* string and []byte parameters receive the same string form, and it is the argument's own text for strings,
+\* the integer spelling for integral numbers whatever CONVFMT is
+StringKindsAgree ==
+  phase = "converted" =>
+     \A j \in 1..Len(args) :
+        LET k == ParamKind(sig, j)
+        IN k \in StrKinds =>
+             /\ recv[j] = ToGoCf(IF k = "string" THEN "bytes" ELSE "string", args[j], cf)
+             /\ (args[j] \in PlainValues \ {"twohalf"} => recv[j] = ToGoCf(k, args[j], DefaultCf))
+
 \* no stage is ever stuck (no panic): every non-final phase has a successor
 NeverStuck == phase \notin Finals => ENABLED NNext
 \* totality of the conversion tables on the in-range part of the menu (constant formulas: ASSUMEd
@@ -38,6 +60,9 @@ RoundTrip ==
      InRange(k, TruncHalves(NumHalves(v))) => FromGo(k, ToGo(k, v).val) = [t |-> "num", h |-> NumHalves(v)]
 ASSUME TotalTables
 ASSUME RoundTrip
+\* indexes agree between resolver and interpreter -- and would not if the resolver numbered only the unshadowed names
+ASSUME DispatchAgrees(FALSE)
+ASSUME ~DispatchAgrees(TRUE)
 \* missing arguments are zero values, extra arguments of a variadic function reach its tail
 ZeroFill ==
   (phase = "converted" /\ ~sig.variadic) =>
@@ -46,5 +71,5 @@ ZeroFill ==
 VariadicSpread ==
   (phase = "converted" /\ sig.variadic) =>
      /\ Len(recv) = (IF Len(args) > Len(sig.params) - 1 THEN Len(args) ELSE Len(sig.params) - 1)
-     /\ \A j \in 1..Len(args) : recv[j] = ToGo(ParamKind(sig, j), args[j])
+     /\ \A j \in 1..Len(args) : recv[j] = ToGoCf(ParamKind(sig, j), args[j], cf)
 =============================================================================
